@@ -1,0 +1,8 @@
+//go:build !verif
+
+package interp
+
+// verifState is empty unless the verif build tag is set.
+type verifState struct{}
+
+func verifStep(*Interpreter) {}
